@@ -1016,12 +1016,29 @@ type DocCase struct {
 	Pos  int    `json:"pos,omitempty"`
 	Len  int    `json:"len,omitempty"`
 	Ins  string `json:"ins,omitempty"`
+	// Rep > 0: the base is Open + Unit repeated Rep times (comma separated) + Close: wide, shallow documents.
+	Rep   int    `json:"rep,omitempty"`
+	Unit  string `json:"unit,omitempty"`
+	Open  string `json:"open,omitempty"`
+	Close string `json:"close,omitempty"`
 }
 
 func (c DocCase) base() string {
 	if c.Hex != "" {
 		b, _ := hex.DecodeString(c.Hex)
 		return string(b)
+	}
+	if c.Rep > 0 {
+		var sb strings.Builder
+		sb.WriteString(c.Open)
+		for i := 0; i < c.Rep; i++ {
+			if i > 0 {
+				sb.WriteString(",")
+			}
+			sb.WriteString(strings.ReplaceAll(c.Unit, "#", strconv.Itoa(i)))
+		}
+		sb.WriteString(c.Close)
+		return sb.String()
 	}
 	return c.Base
 }
@@ -1713,6 +1730,33 @@ func TestPropDecodeClassics(t *testing.T) {
 const tinyAlphabet = "[]{}\"\\,:01-.e+ tnau"
 
 // TestPropDecodeTiny: every document of length <= 4 (thorough: <= 5) over a 19-byte alphabet.
+// Wide documents: thousands of sibling objects / arrays / scalars at nesting depth 1-3 (the decoder bounds the
+// nesting depth at 10000; the number of siblings is not nesting).
+func TestPropDecodeWide(t *testing.T) {
+	vk.S.SetExhaustive("decode-wide-siblings", true)
+	vk.Enum(t, subValid, func(yield func(DocCase) bool) {
+		i := 0
+		for _, n := range []int{9999, 10000, 10001, 20011} {
+			for _, u := range []string{`{}`, `[]`, `{"id":#}`, `[#]`, `{"a":{"b":[#]}}`, `#`, `"s#"`, `"k#":{}`, `"k#":[{}]`} {
+				open, close := "[", "]"
+				if strings.HasPrefix(u, `"k`) {
+					open, close = "{", "}"
+				}
+				for _, wrap := range []int{0, 2} {
+					o, c := open, close
+					if wrap == 2 {
+						o, c = `{"w":[`+open, close+`]}`
+					}
+					i++
+					if vk.Mine(i) && !yield(DocCase{Rep: n, Unit: u, Open: o, Close: c}) {
+						return
+					}
+				}
+			}
+		}
+	})
+}
+
 func TestPropDecodeTiny(t *testing.T) {
 	maxLen := 4
 	if vk.Thorough() {
